@@ -23,7 +23,10 @@ import (
 //	notecount           GetFootnoteCount / GetEndnoteCount of the current document (the results are part of the outcome)
 //	rmfootnote S:[id]   RemoveFootnote(id)
 //	rmendnote  S:[id]   RemoveEndnote(id)
-var localKinds = map[string]bool{"swap": true, "notecount": true, "rmfootnote": true, "rmendnote": true}
+//
+// Further local kinds: openforeign / restyle / rmstyle (styles.go), mdc (converter.go).
+var localKinds = map[string]bool{"swap": true, "notecount": true, "rmfootnote": true, "rmendnote": true,
+	"openforeign": true, "restyle": true, "rmstyle": true, "mdc": true}
 
 func hasKind(h []ops.Op, kind string) bool {
 	for _, o := range h {
@@ -32,6 +35,16 @@ func hasKind(h []ops.Op, kind string) bool {
 		}
 	}
 	return false
+}
+
+func countKind(h []ops.Op, kind string) int {
+	n := 0
+	for _, o := range h {
+		if o.K == kind {
+			n++
+		}
+	}
+	return n
 }
 
 // doLocal executes one op of a local kind; extra is appended to the recorded outcome.
@@ -45,6 +58,10 @@ func (r *docRun) doLocal(o ops.Op) (extra string, err error) {
 		return ""
 	}
 	switch o.K {
+	case "openforeign", "restyle", "rmstyle":
+		return r.doStyleOp(o)
+	case "mdc":
+		return r.doMDC(o)
 	case "swap":
 		if len(x.Side) == 0 {
 			return "none", nil
@@ -116,6 +133,15 @@ func localOp(t *rapid.T, kind string) ops.Op {
 }
 
 func opOf(t *rapid.T, cfg *ops.Config, kind string) ops.Op {
+	if strings.HasSuffix(kind, "@pool") { // style ops with ids of the pool (styles.go)
+		return styleOp(t, strings.TrimSuffix(kind, "@pool"))
+	}
+	if styleKinds[kind] {
+		return styleOp(t, kind)
+	}
+	if kind == "mdc" {
+		return mdcOp(t, -1)
+	}
 	if localKinds[kind] {
 		return localOp(t, kind)
 	}
@@ -129,31 +155,43 @@ var scenarioFamilies = map[string][]string{
 	"lists": {"listitem", "bullet", "numbered", "listitem", "numbered"},
 	"image": {"image", "imagefile", "cellimg", "table", "imgalt"},
 	"hf":    {"header", "footer", "headerpn", "fheader", "difffirst"},
-	"style": {"customstyle", "pstyle", "heading", "tblstyle", "table", "customstyle"},
+	// the style manager of one member of the family: a style the file/library defines is changed, removed, defined anew
+	// and body elements of several members start to refer to the same few styles (heading levels 1-3, pool ids)
+	"style": {"restyle", "restyle", "restyle", "restyle", "customstyle@pool", "rmstyle", "pstyle@pool", "pstyle@pool", "heading@pool", "heading@pool", "tblstyle", "table", "customstyle"},
 	"table": {"table", "celltext", "insrow", "appcol", "mergeh", "cellpara"},
 	"props": {"props", "title", "author", "stats", "pagesize", "margins"},
 	// body elements that are edited IN PLACE later on: the TOC content control (UpdateTOC / AutoGenerateTOC rewrite
 	// it), headings with bookmarks, formula paragraphs
 	"toc": {"heading", "headingbm", "toc", "autotoc", "updatetoc", "heading", "headingbm2", "updatetoc", "math", "mathlatex", "toc"},
 }
-var scenarioFamilyNames = []string{"notes", "notes", "notes", "lists", "lists", "lists", "toc", "toc", "toc", "image", "hf", "style", "table", "props"}
+var scenarioFamilyNames = []string{"notes", "notes", "notes", "lists", "lists", "lists", "toc", "toc", "toc", "style", "style", "style", "style", "image", "hf", "table", "props"}
 
 // anything else that may happen to a derived document
-var scenarioOther = []string{"para", "fpara", "addtext", "rmparaat", "tpldoc", "tpldoc2", "reopen", "save", "heading", "footnote", "listitem", "image", "header", "customstyle", "toc"}
+var scenarioOther = []string{"para", "fpara", "addtext", "rmparaat", "tpldoc", "tpldoc2", "reopen", "save", "heading", "footnote", "listitem", "image", "header", "customstyle", "toc", "restyle", "mdc", "openforeign"}
 
 // derivedScenario draws {base content, [reopen: the base is a document OPENED from a package that has these
 // parts], [accessor calls on the base], derivation (render, two renders, reopen), edits that jump between the
 // derived documents}.
 func derivedScenario(t *rapid.T, cfg *ops.Config) []ops.Op {
 	var pool []string
+	styles := false
 	for i, m := 0, rapid.IntRange(1, 2).Draw(t, "nfam"); i < m; i++ {
-		pool = append(pool, scenarioFamilies[rapid.SampledFrom(scenarioFamilyNames).Draw(t, "fam")]...)
+		fam := rapid.SampledFrom(scenarioFamilyNames).Draw(t, "fam")
+		styles = styles || fam == "style"
+		pool = append(pool, scenarioFamilies[fam]...)
 	}
 	var sc []ops.Op
+	// where the base comes from: 0 made in this process, 1-2 its own bytes opened again, 3 (with the style family
+	// 2 as well) a package of another producer, opened BEFORE the content ops so that they edit the opened document
+	from := rapid.IntRange(0, 3).Draw(t, "opened-base")
+	foreign := from == 3 || (styles && from == 2)
+	if foreign {
+		sc = append(sc, styleOp(t, "openforeign"))
+	}
 	for i, m := 0, rapid.IntRange(1, 3).Draw(t, "pre"); i < m; i++ {
 		sc = append(sc, opOf(t, cfg, rapid.SampledFrom(pool).Draw(t, "prek")))
 	}
-	if rapid.IntRange(0, 2).Draw(t, "opened-base") > 0 {
+	if from > 0 && !foreign {
 		sc = append(sc, cfg.OpOf(t, "reopen"))
 		if rapid.IntRange(0, 2).Draw(t, "opened-more") == 0 {
 			sc = append(sc, opOf(t, cfg, rapid.SampledFrom(pool).Draw(t, "morek")))
@@ -163,14 +201,18 @@ func derivedScenario(t *rapid.T, cfg *ops.Config) []ops.Op {
 		sc = append(sc, localOp(t, "notecount"))
 	}
 	sc = append(sc, cfg.OpOf(t, rapid.SampledFrom([]string{"tpldoc", "tpldoc2", "tpldoc", "tpldoc2", "reopen"}).Draw(t, "derivek")))
+	// edits that jump between the members of the family; a SAVE of the member at hand is a call like any other (it
+	// may write state that the members share), so saves are drawn between the edits
 	for i, m := 0, rapid.IntRange(2, 6).Draw(t, "post"); i < m; i++ {
-		switch w := rapid.IntRange(0, 7).Draw(t, "postw"); {
+		switch w := rapid.IntRange(0, 9).Draw(t, "postw"); {
 		case w < 2:
 			sc = append(sc, localOp(t, "swap"))
 		case w < 7:
 			sc = append(sc, opOf(t, cfg, rapid.SampledFrom(pool).Draw(t, "postk")))
-		default:
+		case w < 8:
 			sc = append(sc, opOf(t, cfg, rapid.SampledFrom(scenarioOther).Draw(t, "otherk")))
+		default:
+			sc = append(sc, cfg.OpOf(t, "save"))
 		}
 	}
 	return sc
